@@ -75,3 +75,10 @@ CORPUS = [
     M("n-reorder-assignments", D, "        cmd.eco = or_default(self._eco, False)\n        cmd.turbo = or_default(self._turbo, False)", "        cmd.turbo = or_default(self._turbo, False)\n        cmd.eco = or_default(self._eco, False)", "S"),
     M("n-v2-floor-removed", L, 'total_size = max(int.from_bytes(buf[4:6], "little"), 56)', 'total_size = max(int.from_bytes(buf[4:6], "little"), 6)', "S"),
 ]
+# round 4 (C01.c): the valid responses are returned as collected
+CORPUS += [
+    M("valid-responses-deduplicated", D, "        # Device is supported if we can process any response\n        self._supported = len(valid_responses) > 0",
+      "        valid_responses = list(dict.fromkeys(valid_responses))\n\n        # Device is supported if we can process any response\n        self._supported = len(valid_responses) > 0"),
+    M("valid-responses-last-only", D, "        return valid_responses\n", "        return valid_responses[-1:]\n"),
+    M("n-valid-responses-copied", D, "        return valid_responses\n", "        return list(valid_responses)\n", "S"),
+]
